@@ -980,6 +980,10 @@ func (c *cenv) call(x *ECall) interface{} {
 		return re.ReplaceAllString(str(1), str(2))
 	case "toLower":
 		return strings.ToLower(str(0))
+	case "trimLeftSet":
+		return strings.TrimLeft(str(0), str(1))
+	case "trimRightSet":
+		return strings.TrimRight(str(0), str(1))
 	case "sha1Of":
 		h := sha1.Sum([]byte(str(0)))
 		return string(h[:])
@@ -1055,6 +1059,10 @@ func (c *cenv) call(x *ECall) interface{} {
 	case "validRegex":
 		_, err := regexp.Compile(str(0))
 		return err == nil
+	case "ident":
+		return c.eval(x.Args[0])
+	case "singleton":
+		return cseq{c.eval(x.Args[0])}
 	case "placeholderText":
 		// the placeholder {TYPE:NAME|MOD|...} (used to build a command for a replay)
 		s := "{" + str(0) + ":" + str(1)
